@@ -474,14 +474,14 @@ class StorageBase(metaclass=ABCMeta):
         if t_end is None:
             t_end = self.times[-1]
 
-        # determine the associated indices
-        i_start: int = np.searchsorted(self.times, t_start, side="left")  # type: ignore
-        i_end: int = np.searchsorted(self.times, t_end, side="right")  # type: ignore
+        # determine the associated indices; note that the times are not necessarily
+        # sorted, e.g., when several simulations have been appended
+        indices = [i for i, t in enumerate(self.times) if t_start <= t <= t_end]
 
         # extract the actual memory
         return MemoryStorage(
-            times=self.times[i_start:i_end],
-            data=self.data[i_start:i_end],
+            times=[self.times[i] for i in indices],
+            data=[self.data[i] for i in indices],
             field_obj=self._field,
             info=self.info,
         )
